@@ -202,7 +202,11 @@ func (b *backend) partial(p []byte, fill bool) int {
 func (b *backend) randErr() (string, uint32, error) {
 	codes := []uint32{1, 2, 5, 13, 17, 20, 21, 22, 28, 30, 39, 61, 95, 11}
 	code := codes[b.r.intn(len(codes))]
-	switch b.r.intn(11) {
+	switch b.r.intn(13) {
+	case 11: // an errno inside an error *tree* (errors.Join, several %w): found all the same
+		return "JL", code, errors.Join(errors.New("first failure"), fmt.Errorf("second: %w", linux.Errno(code)))
+	case 12:
+		return "MS", code, fmt.Errorf("%w; then %w", errors.New("cleanup failed"), syscall.Errno(code))
 	case 0, 1:
 		return "L", code, linux.Errno(code)
 	case 2, 3:
